@@ -18,6 +18,9 @@ def build(tier):
     for (sk, rec) in ((("S1", False), ("S2q", True)) if quick else (("S1", False), ("S2", True), ("S3", True), ("S2b", True))):
         obs.append(trees.tree_ob("C17.a", sk, "hist", dict(base, recursive=rec, auto_ex=False), fixexcl=True, fixrev=True, timeout=400 if quick else 2400,
                                  note=" (other input processed first with the same settings object)"))
+    # a directory reachable under two names (symbolic link to a sibling, follow_symlinks on): independent of which name is listed first
+    obs.append(trees.tree_ob("C17.a", "S2q" if quick else "S2", "symrel", dict(base, recursive=True, auto_ex=False, has_prefix=False), fixexcl=True, fixrev=True,
+                             timeout=400 if quick else 2400, note=" (symbolic link to a sibling directory, links followed, two listing orders)"))
     # C17.c / C12 lone file: title and module name do not depend on the absolute location (base name only)
     obs.append(trees.tree_ob("C17.c", "S3", "file", dict(ext_t=False, ext_m=False, excl_root=False, recursive=False, auto_ex=False, out_i=0),
                              fixrev=True, timeout=400 if quick else 2400, note=" (lone input file)"))
